@@ -928,12 +928,19 @@ func (h *ResponseHeader) AppendBytes(dst []byte) []byte {
 	if len(contentEncoding) > 0 {
 		dst = appendHeaderLine(dst, bytestr.StrContentEncoding, contentEncoding)
 	}
-	if len(h.contentLengthBytes) > 0 {
+	// A 1xx or 204 response has no body and carries no framing field (a 304 may say
+	// how long the body would have been): the ones recorded for a body that was set
+	// before the status was decided are not written.
+	noFraming := statusCode/100 == 1 || statusCode == consts.StatusNoContent
+	if len(h.contentLengthBytes) > 0 && !noFraming {
 		dst = appendHeaderLine(dst, bytestr.StrContentLength, h.contentLengthBytes)
 	}
 
 	for i, n := 0, len(h.h); i < n; i++ {
 		kv := &h.h[i]
+		if noFraming && bytes.Equal(kv.key, bytestr.StrTransferEncoding) {
+			continue
+		}
 		if h.noDefaultDate || !bytes.Equal(kv.key, bytestr.StrDate) {
 			dst = appendHeaderLine(dst, kv.key, kv.value)
 		}
